@@ -41,13 +41,13 @@ func main() {
 	}
 	h.corpus(f.Corpus)
 
-	h.coderCases(r.Fork(), f.N(400, 20000))
-	h.checkCases(r.Fork(), f.N(150, 5000))
-	h.pbCases(r.Fork(), f.N(150, 6000))
-	h.shardCases(r.Fork(), f.N(120, 4000))
-	h.bigShardCases(r.Fork(), f.N(8, 160))
-	h.builderCases(r.Fork(), f.N(6, 120))
-	h.compoundCases(r.Fork(), f.N(5, 100))
+	h.coderCases(r.Fork(), f.N(400, 10000))
+	h.checkCases(r.Fork(), f.N(150, 3000))
+	h.pbCases(r.Fork(), f.N(150, 2000))
+	h.shardCases(r.Fork(), f.N(120, 1500))
+	h.bigShardCases(r.Fork(), f.N(8, 60))
+	h.builderCases(r.Fork(), f.N(6, 60))
+	h.compoundCases(r.Fork(), f.N(5, 60))
 }
 
 type harness struct {
